@@ -18,7 +18,8 @@ Local Open Scope N_scope.
 
 
 def cases_v(cs):
-    rows = ["(%d, %s)" % (c["id"], c["coq"]) for c in cs if not c.get("scoq")]
+    rows = ["(%d, %s)" % (c["id"], c["coq"]) for c in cs if not c.get("scoq") and not c.get("lcoq")]
+    lrows = ["(%d, %s)" % (c["id"], c["lcoq"]) for c in cs if c.get("lcoq")]
     srows = ["(%d, %s)" % (c["id"], c["scoq"]) for c in cs if c.get("scoq")]
     return HEAD + """Definition cases : list (N * case) := [
 %s
@@ -26,11 +27,15 @@ def cases_v(cs):
 Definition scases : list (N * scase) := [
 %s
 ].
+Definition lcases : list (N * lcase) := [
+%s
+].
 Definition bad := Eval vm_compute in
   flat_map (fun c => match check_case (snd c) with O => [] | k => [(fst c, k)] end) cases
-  ++ flat_map (fun c => match check_scoped (snd c) with O => [] | k => [(fst c, k)] end) scases.
+  ++ flat_map (fun c => match check_scoped (snd c) with O => [] | k => [(fst c, k)] end) scases
+  ++ flat_map (fun c => match check_lazy (snd c) with O => [] | k => [(fst c, k)] end) lcases.
 Print bad.
-""" % (";\n".join(rows), ";\n".join(srows))
+""" % (";\n".join(rows), ";\n".join(srows), ";\n".join(lrows))
 
 
 def class_v(rows):
@@ -54,7 +59,16 @@ def spec_of(c):
 
 def describe(c):
     def g(ns):
-        return "[" + ", ".join("%s%s%s@%d" % ("ctx-ignoring " if n.get("deaf") else "", n["out"], ":" + n["class"] if n.get("class") else "", n["delay"]) for n in ns) + "]"
+        def pv(n):
+            p = n.get("prov")
+            if not p:
+                return ""
+            if p["kind"] == "created":
+                return "lazy(created) "
+            if p["kind"] == "fail":
+                return "lazy(provider fails:%s after %d) " % (p.get("class"), p.get("delay", 0))
+            return "lazy(provider takes %d) " % p.get("delay", 0)
+        return "[" + ", ".join("%s%s%s%s@%d" % (pv(n), "ctx-ignoring " if n.get("deaf") else "", n["out"], ":" + n["class"] if n.get("class") else "", n["delay"]) for n in ns) + "]"
     s = "%s primaries=%s fallbacks=%s" % (c["style"], g(c["prim"]), g(c["fb"]))
     if c.get("cancel"):
         s += " cancel@%d%s" % (c["cancel"]["at"], "(deadline)" if c["cancel"]["deadline"] else "")
@@ -74,11 +88,11 @@ def key_of(c):
         return "proxy-body-not-delivered"
     if c.get("scoped") and c["scoped"]["addr"] in ("", "unknown"):
         return "unscoped-client-lost-nodes"
-    succ = [n for n in c["prim"] if n["out"] == "ok"]
+    succ = [n for n in c["prim"] if n["out"] == "ok" and not (n.get("prov") or {}).get("kind") == "fail"]
     if succ and not c.get("cancel"):
         if not c["res"].startswith("(ROk (P"):
             return "success-missed"
-        if c["time"] != min(n["delay"] for n in succ):
+        if c["time"] != min(n["delay"] + (n.get("prov") or {}).get("delay", 0) for n in succ):
             return "waited-for-slower-node"
         return "wrong-answer"
     if c["res"] == "RBug" and c["prim"]:
@@ -126,9 +140,10 @@ def main():
     R.coverage["rule"] = ("one evaluation = one call of the real multi client (Instrument / NewMultiForT) against scripted nodes in a synctest bubble; "
                           "kinds: corpus, exhaustive (every outcome vector over {success, timeout, syncing, gateway, other error, hang[, rejected answer]} and every completion order: "
                           "<= 2 primaries x <= 1 fallback at quick (full product, 3 styles); <= 3 x <= 2 at thorough: full product for Plain and Submit, for Pred the fallback group is fully enumerated whenever no primary succeeds or hangs and reduced to 4 groups otherwise), "
-                          "wide (9 and 12 nodes in a group, a success behind 8 or 11 hung / slow nodes: more nodes than forkjoin's default worker count), cancel (a cancellation or deadline in every gap of the run's timeline, and an already cancelled context), random (up to 6 primaries, 4 fallbacks), ties (equal latencies); "
+                          "wide (9..40 nodes in a group, as primaries and as fallbacks: a success behind n-1 hung / slow nodes, and one healthy node at a random position among 17..40 hung / slow / failing ones, with a hung prefix of at least 16 or anywhere - every node must be queried at once whatever the group size), cancel (a cancellation or deadline in every gap of the run's timeline, and an already cancelled context), random (up to 6 primaries, 4 fallbacks), ties (equal latencies); "
                           "deaf (node calls that ignore cancellation and return after an hour: next to a quick success, in the fallback round, next to an ordinary in-flight call when the caller cancels or its deadline passes; every 2-primary vector with every choice of context-ignoring nodes x cancellation gaps), "
                           "scoped (multi clients over lazy wrappers, as NewMultiHTTP builds them, called through ClientForAddress with \"\", every configured address and an unknown one; every combination of created / not yet created clients, fresh and after an earlier call; the label is evaluated as a call of the client the model's scope rule yields, nodes outside it must stay uncalled), "
+                          "lazy (nodes wrapped in the real lazy client: provider immediate / 3 ms / 30 s / failing, first use or client already created, x node outcomes, single nodes exhaustively and pairs sampled at quick / exhaustive at thorough, a cancellation or deadline in every gap; evaluated through Multi.lazy_node), "
                           "styles: Plain = SlotsPerEpoch, Pred = NodeSyncing (success predicate), Submit = SubmitAttestations, Proxy = multi.Proxy with a POST body (each node reads the body it is handed, in completion order; a node that does not get the caller's body answers 400); "
                           "non-trivial = at least 2 primaries and the result is a fallback's answer, a node's error, or a primary's answer although another primary failed or hangs; distinct by the whole label")
     R.coverage["input_distribution"] = {
@@ -141,6 +156,7 @@ def main():
         "fallbacks": dict(collections.Counter(len(c["fb"]) for c in cs)),
         "with_cancellation": sum(1 for c in cs if c.get("cancel")),
         "scoped_by_address": dict(collections.Counter((c["scoped"]["addr"] or '""')[:1] for c in cs if c.get("scoped"))),
+        "lazy_providers": dict(collections.Counter((n.get("prov") or {}).get("kind", "-") + (":%d" % n["prov"].get("delay", 0) if n.get("prov") and n["prov"]["kind"] != "created" else "") for c in cs if c.get("lcoq") for n in c["prim"] + c["fb"])),
         "scoped_warm": sum(1 for c in cs if c.get("scoped") and c["scoped"].get("warm")),
         "with_context_ignoring_node": sum(1 for c in cs if any(n.get("deaf") for n in c["prim"] + c["fb"])),
         "proxy_bodies_read": sum(1 for c in cs for b in c["bodies"] if b),
